@@ -18,7 +18,7 @@ import os
 from . import astq as A
 from . import pathsig as PS
 from .canon import Canon
-from .facts import walk, VERIF, AnalysisIncomplete
+from .facts import walk, strip, VERIF, AnalysisIncomplete
 from .lr import _drop_noise
 
 GOLDEN_DIR = os.path.join(VERIF, "ctpgsa", "golden")
@@ -38,11 +38,36 @@ def pure_call(cn_, n):
     return not any(A.mutable_ref(p) for p in A.split_params(ft))
 
 
+def _local_target(cn_, n):
+    """The written object of an assignment / increment node is a by-value local or a by-value parameter (its value is
+    only visible through what is later computed from it: value numbering carries it there)."""
+    k = n.get("k")
+    if k in ("BinaryOperator", "CompoundAssignOperator", "UnaryOperator"):
+        t = n["c"][0]
+    elif k == "CXXOperatorCallExpr" and len(n.get("c") or []) >= 2:
+        t = n["c"][1]
+    else:
+        return False
+    s = strip(t, casts=True)
+    if s is None or s.get("k") != "DeclRefExpr":
+        return False
+    d = s["d"]
+    if d["k"] not in ("Var", "ParmVar") or d.get("global") or d.get("staticmember"):
+        return False
+    if d["id"] in cn_.defs:
+        return False                      # an alias: the write goes to what it names
+    for p in cn_.fn.o["params"]:
+        if p["id"] == d["id"]:
+            return not p.get("ref")
+    t_ = cn_.fn.facts.TC(d.get("t"))
+    return not t_.rstrip().endswith("&")
+
+
 def events(cn_, node):
-    out = PS.default_events(cn_, node)
+    out = [x for x in PS.default_events(cn_, node) if not (x.kind in ("assign", "inc") and _local_target(cn_, x.node))]
     for n in walk(node):
         k = n.get("k")
-        if k == "CompoundAssignOperator":
+        if k == "CompoundAssignOperator" and not _local_target(cn_, n):
             out.append(PS.Event("assign", cn_.c(n), n))
         elif k in ("CXXMemberCallExpr", "CallExpr"):
             c = n.get("callee") or {}
